@@ -281,6 +281,9 @@ func truncate(s string, n int) string {
 // ---- main -----------------------------------------------------------------------------------------
 
 func main() {
+	if d := os.Getenv("VH_DRIVER"); d != "" { // development: another build of the model driver
+		driverBin = d
+	}
 	if len(os.Args) < 2 {
 		fmt.Fprintln(os.Stderr, "usage: vh check <Cnn> --tier quick|thorough | vh replay <file> | vh child")
 		os.Exit(2)
